@@ -40,3 +40,11 @@ func verifDial(network, addr string) (net.Conn, error) {
 	}
 	return net.Dial(network, addr)
 }
+
+// VerifAddr returns the address a listening server is bound to (the listener is unexported).
+func VerifAddr(s *Server) string {
+	if s.ln == nil {
+		return ""
+	}
+	return s.ln.Addr().String()
+}
